@@ -72,7 +72,8 @@ def r_minmax_agg(ck: Checker) -> None:
         for cond in (f"{b}.ast_type == ASTType.Literal", f"{b}.atom.ast_type == ASTType.BodyAggregate", f"{b}.atom.function in (AggregateFunction.Max, AggregateFunction.Min)"):
             ck.guard(f"candidate: {cond.split(' ')[0].split('.')[-1]}", func, ret, cond, "only #min/#max body aggregates are translated")
         org = {st.origin.get(b, "") for st in it.states(ret)}
-        ck.add("candidate is a body literal of the rule", org == {f"{func.params()[1]}.body[*]"}, func, ret, f"`{b}` iterates {sorted(org)}", "", nontrivial=False)
+        rule_p = [x for x in func.params() if x not in ("self", "cls")][0]
+        ck.add("candidate is a body literal of the rule", org == {f"{rule_p}.body[*]"}, func, ret, f"`{b}` iterates {sorted(org)}", "", nontrivial=False)
 
 
 def r_simple(ck: Checker) -> None:
